@@ -2582,7 +2582,14 @@ class WorkflowGraph(object):
             variable_substitute(bool): Whether to perform variable substitution, optional for a primitive graph
                 but required for a replicated one
         """
-        concrete = experiment.model.frontends.flowir.FlowIRConcrete(flowir, platform, documents)
+        try:
+            concrete = experiment.model.frontends.flowir.FlowIRConcrete(flowir, platform, documents)
+        except experiment.model.errors.ExperimentInvalidConfigurationError:
+            raise
+        except Exception as e:
+            # VV: A malformed FlowIR dictionary is an invalid configuration (same as when loading it from a file)
+            raise experiment.model.errors.ExperimentInvalidConfigurationError(
+                'Errors when loading configuration', experiment.model.errors.FlowIRConfigurationErrors([e]))
 
         exp_conf = experiment.model.conf.FlowIRExperimentConfiguration(
             concrete=concrete, path=None, is_instance=False, primitive=primitive, manifest=manifest,
